@@ -128,6 +128,41 @@ def _check(ctx, case):
                 # the documented attribute is changed on the object between two runs: the new spacing applies from then on
                 an.convergence_step = int(case['step_changes'][ri])
             steps_by_run.append(int(an.convergence_step))
+            if case.get('mid_fault') and ri == len(case['runs']) - 1 and run['samples'].shape[0] >= 4:
+                # the last run fails half-way (an I/O error while reading a batch): what the attack exposes right afterwards is what was reached
+                armed, seen, limit = [False], [0], run['samples'].shape[0] // 2
+
+                @scared.preprocess
+                def failing(traces):
+                    if armed[0]:
+                        seen[0] += traces.shape[0]
+                        if seen[0] > limit:
+                            raise IOError('injected read failure')
+                    return traces
+                cont = scared.Container(dist.ram_ths(samples=run['samples'], plaintext=run['plaintext']), preprocesses=[failing])
+                cont.trace_size
+                armed[0] = True
+                try:
+                    an.run(cont)
+                except IOError:
+                    pass
+                else:
+                    raise Violation('%s: run() swallowed the failure of a batch' % kind, case)
+                pts = []
+                scs = []
+                for n_, sc_, _ in log:
+                    if not pts or n_ != pts[-1]:
+                        pts.append(n_)
+                        scs.append(sc_)
+                conv_now = an.convergence_traces
+                ncols = 0 if conv_now is None else np.asarray(conv_now).shape[-1]
+                if ncols != len(pts):
+                    raise Violation('%s: after a run that failed half-way convergence_traces has %d columns, %d convergence points %s had been reached' % (kind, ncols, len(pts), pts), case)
+                for j in range(ncols):
+                    if not np.array_equal(np.asarray(np.asarray(conv_now)[..., j], dtype='float64'), np.asarray(scs[j], dtype='float64'), equal_nan=True):
+                        raise Violation('%s: after a run that failed half-way convergence column %d is not the scores computed at %d traces' % (kind, j, pts[j]), case)
+                ctx.case(case, len(pts) > (len(totals) and sum(1 for p_ in pts if p_ <= tot)), ['run_failed_half_way', 'kind:' + kind])
+                return
             cont = scared.Container(dist.ram_ths(samples=run['samples'], plaintext=run['plaintext']))
             must(case, '%s attack run() #%d with convergence_step=%d' % (kind, ri + 1, steps_by_run[-1]), an.run, cont)
             tot += run['samples'].shape[0]
@@ -254,7 +289,7 @@ def cases(draw, kind, precision):
     model = 'mono%d' % draw(st.integers(0, 2)) if kind == 'dpa' else 'value' if kind == 'tdpa' else draw(st.sampled_from(['value', 'hw']))
     mask = draw(st.sampled_from([0x07, 0x03]))
     bad_between = nruns > 1 and kind != 'tdpa' and draw(st.integers(0, 2)) == 0
-    case = {'kind': 'convergence', 'step_changes': step_changes, 'bad_run_between': bad_between, 'dist': kind, 'precision': precision, 'regime': regime, 'batch_size': bs, 'step': step, 'runs': runs, 'model': model, 'mask': mask,
+    case = {'kind': 'convergence', 'mid_fault': kind != 'tdpa' and draw(st.integers(0, 7)) == 0, 'step_changes': step_changes, 'bad_run_between': bad_between, 'dist': kind, 'precision': precision, 'regime': regime, 'batch_size': bs, 'step': step, 'runs': runs, 'model': model, 'mask': mask,
             'words': None if kind != 'tdpa' else 0, 'guesses': list(range(draw(st.integers(2, 4)))), 'discriminant': draw(st.sampled_from(['maxabs', 'nanmax', 'abssum']))}
     vmax = mask if model == 'value' else bin(mask).count('1')
     if kind in ('anova', 'nicv', 'snr', 'mia', 'tdpa'):
